@@ -58,6 +58,11 @@ pub enum Side {
     /// once, nobody else is cancelled, the new request goes out (every n up to 130 and around the
     /// sizes at which a hash table of n entries is exactly full; victim first / last)
     ClientAbandonAmongMany,
+    /// n calls are in flight (all transmitted); SEVERAL of them (the two oldest, the two newest,
+    /// every other one, all of them) are abandoned between two polls of the dispatch - what an
+    /// aborted handler does that awaited a `join` of nested calls - and one more call is begun:
+    /// every abandoned call's cancellation is written exactly once, nobody else is cancelled
+    ClientAbandonSeveralOfMany,
     /// a spawned server channel (every handler its own tokio task, cooperative budget on) whose
     /// peer takes no responses until t = 4 s: n requests with deadlines 10 ms apart from 1 s on, all
     /// parked except the one with the latest deadline, which answers at once (its response waits in
@@ -90,6 +95,16 @@ pub fn configs_many(side: Side, thorough: bool) -> Vec<BurstCfg> {
         if thorough {
             ns.extend(131..=460);
             ns.extend([1791, 1792, 1793, 3583, 3584, 3585]);
+        }
+        ns.sort();
+        ns.dedup();
+    }
+    if side == Side::ClientAbandonSeveralOfMany {
+        ns = (2..=40).collect();
+        ns.extend([63, 64, 65, 100, 127, 128, 129, 130]);
+        if thorough {
+            ns.extend(41..=300);
+            ns.extend([447, 448, 449, 895, 896, 897]);
         }
         ns.sort();
         ns.dedup();
@@ -223,6 +238,11 @@ fn run_client(cfg: &BurstCfg, out: &mut RunOut, text: &mut String) {
 }
 
 fn run_abandon_among_many(cfg: &BurstCfg, victim_last: bool, out: &mut RunOut, text: &mut String) {
+    let v = if victim_last { cfg.n - 1 } else { 0 };
+    run_abandon_set(cfg, &[v], out, text)
+}
+
+fn run_abandon_set(cfg: &BurstCfg, victims: &[usize], out: &mut RunOut, text: &mut String) {
     let n = cfg.n;
     let log = Log::new();
     let core = Rc::new(RefCell::new(Core::new(0, Flavour::Always, 1, None, log.clone())));
@@ -255,29 +275,40 @@ fn run_abandon_among_many(cfg: &BurstCfg, victim_last: bool, out: &mut RunOut, t
         out.violations.push(viol("burst-not-transmitted", format!("{n} calls begun over an always-writable transport with room for all: {} requests were written", ids.len())));
         return;
     }
-    let victim = if victim_last { n - 1 } else { 0 };
-    let Some(vid) = ids.iter().find(|(_, p)| *p as usize == victim).map(|(id, _)| *id) else {
-        out.machinery_error = Some("abandon-among-many: the victim's request is not on the wire".into());
-        return;
-    };
-    // before the dispatch runs again: the victim is abandoned, one more call is begun
-    calls[victim] = None;
+    let mut vids: Vec<u64> = vec![];
+    for victim in victims {
+        let Some(vid) = ids.iter().find(|(_, p)| *p as usize == *victim).map(|(id, _)| *id) else {
+            out.machinery_error = Some("abandon-among-many: a victim's request is not on the wire".into());
+            return;
+        };
+        vids.push(vid);
+    }
+    // before the dispatch runs again: the victims are abandoned, one more call is begun
+    for victim in victims {
+        calls[*victim] = None;
+    }
     let mut extra = mk(n);
     let _ = extra.as_mut().poll(&mut cx);
     out.nontrivial = true;
     drive(&mut dispatch, &mut cx, &flag, n);
     let wire = core.borrow().wire.clone();
     let cancels: Vec<u64> = wire.iter().filter_map(|m| if let Msg::Cancel { id, .. } = m { Some(*id) } else { None }).collect();
-    let tag = format!("{n} calls in flight, the {} one abandoned and one more call begun before the dispatch ran again", if victim_last { "newest" } else { "oldest" });
+    let tag = if victims.len() == 1 {
+        format!("{n} calls in flight, the {} one abandoned and one more call begun before the dispatch ran again", if victims[0] + 1 == n { "newest" } else { "oldest" })
+    } else {
+        format!("{n} calls in flight, calls {victims:?} abandoned together and one more call begun before the dispatch ran again")
+    };
     text.push_str(&format!("{tag}: cancels {cancels:?}\n"));
-    let mine = cancels.iter().filter(|c| **c == vid).count();
-    if mine == 0 {
-        out.violations.push(viol("C03-R4-cancel-not-delivered", format!("{tag}: no cancellation for request {vid} reached the wire")));
+    for vid in &vids {
+        let mine = cancels.iter().filter(|c| *c == vid).count();
+        if mine == 0 {
+            out.violations.push(viol("C03-R4-cancel-not-delivered", format!("{tag}: no cancellation for request {vid} reached the wire")));
+        }
+        if mine > 1 {
+            out.violations.push(viol("C03-R2-cancel-twice", format!("{tag}: {mine} cancellations for request {vid}")));
+        }
     }
-    if mine > 1 {
-        out.violations.push(viol("C03-R2-cancel-twice", format!("{tag}: {mine} cancellations for request {vid}")));
-    }
-    if let Some(other) = cancels.iter().find(|c| **c != vid) {
+    if let Some(other) = cancels.iter().find(|c| !vids.contains(c)) {
         out.violations.push(viol("C03-R1-spurious-cancel", format!("{tag}: a cancellation for request {other}, whose call is alive")));
     }
     if !wire.iter().any(|m| matches!(m, Msg::Req { payload, .. } if *payload as usize == n)) {
@@ -1061,6 +1092,16 @@ pub fn run_cfg(cfg: &BurstCfg, render: bool) -> RunOut {
                 Side::ClientAbandonAmongMany => {
                     for victim_last in [false, true] {
                         run_abandon_among_many(cfg, victim_last, &mut out, &mut text);
+                        out.extra_execs += 1;
+                    }
+                }
+                Side::ClientAbandonSeveralOfMany => {
+                    let n = cfg.n;
+                    let mut sets: Vec<Vec<usize>> = vec![vec![0, 1], vec![n - 2, n - 1], vec![0, n - 1], (0..n).step_by(2).collect(), (0..n).collect(), (0..n).rev().collect()];
+                    sets.retain(|s| s.len() >= 2);
+                    sets.dedup();
+                    for set in sets {
+                        run_abandon_set(cfg, &set, &mut out, &mut text);
                         out.extra_execs += 1;
                     }
                 }
